@@ -16,7 +16,8 @@ Plan traverse_generate(uint64_t base, const std::string &prop, uint64_t index, i
     Rng r(p.seed);
     Rng rd = r.fork("document"), rf = r.fork("faults"), ro = r.fork("operations");
     Node tree; bool valid; int need = 1;
-    if (rd.chance(4, 100)) p.doc = deep_document(rd, p.root, p.faults, need);
+    bool deep = false;
+    if (rd.chance(4, 100)) { p.doc = deep_document(rd, p.root, p.faults, need); deep = true; }
     else { p.doc = gen_document(rd, tier, p.root, &tree, valid, p.faults, &need); p.note = tree_text(tree); }
     unsigned fc = (unsigned)rf.below(100);
     int nf = fc < 38 ? 0 : fc < 75 ? 1 : fc < 92 ? 2 : 3;
@@ -39,6 +40,9 @@ Plan traverse_generate(uint64_t base, const std::string &prop, uint64_t index, i
     if (nf && !pristine.empty() && pristine.size() == p.doc.size() && pristine != p.doc && rf.chance(1, 3)) {
         p.doc2 = p.doc; p.doc = pristine; p.par["recover"] = 1 + (int64_t)rf.below(3); p.faults.push_back("F7:damaged_first_then_repaired");
     }
+    // a "diver": every container met is entered (no skipping, no lookups, no early leave) until this many levels are open, so that
+    // the adaptive part of the traversal happens at the bottom of a deep document, not only near its top
+    { Rng rv = r.fork("dive"); if (deep ? rv.chance(1, 2) : rv.chance(1, 12)) p.par["dive"] = rv.chance(1, 2) ? 100000 : 1 + (int64_t)rv.below((uint64_t)std::max(1, need) + 4); }
     int nch = (int)ro.below(tier ? 300 : 150);
     for (int i = 0; i < nch; i++) p.ops.push_back(mk(X_CHOICE, (int64_t)ro.below(1000)));
     return p;
@@ -57,12 +61,16 @@ struct Walker {
 
     void must(const Outcome &o, const char *what) { if (!o.ret) { ok = false; bump(r.cnt, std::string("traverse.failed.") + what); } }
 
+    size_t deepest = 0;
+    bool diving() { if (stack.size() > deepest) deepest = stack.size(); return (int64_t)deepest < p.P("dive") && dived_ok; }
+    bool dived_ok = true;
     void on_value() {
         // positioned on a value the parser just returned
         Outcome t = call(P_GET_TYPE);
         if (stack.back() == 1) { Outcome n = call(P_GET_NAME); if (n.ret && n.span_off >= 0 && n.span_len <= 8) { Bytes nm(p.doc.begin() + n.span_off, p.doc.begin() + n.span_off + (long)n.span_len); if (seen.size() < 32) seen.push_back(nm); } }
         if (t.type == 1 || t.type == 3) {
             int64_t c = choice() % 10;
+            if (diving()) c = 5;
             if (c < 4) { skipped++; bump(r.cnt, "traverse.skip"); }                      // skip: the next call walks over it
             else if (c < 8) { Outcome e = call(t.type == 1 ? P_ENTER_OBJ : P_ENTER_ARR); must(e, "enter"); if (e.ret) stack.push_back(t.type); }
             else if (c < 9) { Outcome g = call(P_GET_RAW); must(g, "get_raw"); skipped++; bump(r.cnt, "traverse.get_raw"); }
@@ -73,6 +81,7 @@ struct Walker {
     }
 
     void leave() {
+        dived_ok = false;       // the bottom was reached (or the dive target): from here on the traversal is adaptive again
         Outcome l = call(stack.back() == 1 ? P_LEAVE_OBJ : P_LEAVE_ARR);
         must(l, "leave");
         stack.pop_back();
@@ -93,6 +102,7 @@ struct Walker {
         while (ok && !done && !ps.dead) {
             if (++steps > cap) { ps.sink.fail("C16.traverse.no_progress", fmt("a protocol-following traversal of %zu bytes did not finish within %zu steps", p.doc.size(), cap)); ok = false; break; }
             int64_t c = choice() % 100;
+            if (diving()) c = 0;
             if (stack.back() == 1 && c >= 70 && c < 92) {
                 Bytes nm;
                 if (!seen.empty() && c < 84) { nm = seen[(size_t)(choice() % (int64_t)seen.size())]; if (c >= 80) nm.push_back('a'); }
